@@ -117,6 +117,14 @@ def boundary_lines(ctx):
         add('integer', 0, s)
     for s in ['; \u00e0 b\n', ' LDA #1 ; \u010d x\n', '* caf\u00e9\n']:
         add('merlin', 0, s)
+    # blanks that belong to the last column of a line (a character constant holding a blank, the operand of USR), an empty operand
+    # an operand wider than its column in front of a comment: where one blank can belong to the operand (file names, macro arguments)
+    # the comment has to stay a comment
+    for s in [' DSK A-LONG-FILE-NAME\t;output file\n', ' PUT A LONG FILE NAME\t;c\n', 'LONGMACRONAME MAC\n LDA #1\n <<<\n PMC LONGMACRONAME\t;call it\n',
+              ' SAV LONGFILENAME12 ;c\n', ' USE LONG.FILE.NAME1\t; c\n', ' LDA LONGOPERAND12 ;c\n', ' DSK SHORT\t;c\n']:
+        add('merlin', 0, s)
+    for s in [' USR 1,2   \n', " LDA #' \n", ' CMP #" \n', ' USR \n', "LABEL LDA #' \n RTS\n", " ASC 'A B' \n"]:
+        add('merlin', 0, s)
     # long lines
     add('applesoft', 2049, "10 REM " + "A" * 300 + "\n20 END\n")
     add('applesoft', 2049, "10 PRINT \"" + "A" * 300 + "\"\n20 END\n")
@@ -211,6 +219,8 @@ def run(ctx, model_ok=True):
                 body = ''.join(rng.choice('ABCXYZ09$#(),_') for _ in range(ln))
                 if c == ncol - 1 and rng.random() < 0.4:
                     body = ';' + body
+                if c == ncol - 1 and rng.random() < 0.25:
+                    body = rng.choice([body + ' ', body + '   ', '', "#' ", body + ' X '])     # blanks of its own, or nothing at all
                 cols.append(body)
             w = rng.choice([(9, 6, 11), (9, 6, 11), (1, 1, 1), (12, 8, 16), (0, 0, 0), (4, 9, 2)])
             lines.append(f"mfmt f{i} {w[0]} {w[1]} {w[2]} {'|'.join(hexs(c.encode()) or '-' for c in cols)}")
@@ -264,7 +274,8 @@ def run(ctx, model_ok=True):
                     WS = ' \t\n\x0b\x0c\r'
                     xi = bytes.fromhex(x[:-1]).decode('latin1')
                     ml = [bytes.fromhex(s.replace('SS', '20')).decode('latin1') for s in y[:-1].split('|')] if y != '.' else []
-                    yi = ''.join(s.rstrip(WS) + '\n' for s in ml) if ml else '\n'
+                    # (pasteable style: the columns joined by one blank; nothing of the last column is trimmed)
+                    yi = ''.join(s + '\n' for s in ml) if ml else '\n'
                     ok = xi == yi
             if ok:
                 ctx.traces_validated += 1
